@@ -17,7 +17,7 @@ EXPLANATION = (
     "builder and path-extension detection."
     " (R5) configuration plumbing: every field of every workspace `Builder` struct is read by some function other than a derived trait impl, so an option stored by a setter (e.g. the reference sequence repository of the generic alignment reader) cannot be silently ignored."
     " (R6) VCF -> BCF keeps the keys: the header text order of INFO / FILTER / FORMAT equals the order StringMaps::try_from numbers the dictionary in (shared with C10.R10)."
-    " (R7) detection window: no builder of the generic readers constructs its detection BufReader with a constant capacity below the default 8 KiB at which known finding F6 was triaged. (R8) dispatch agreement: every arm of a noodles-util wrapper's trait method forwards to the same-named method. (R9) the BGZF arm of detect_format treats a stream shorter than the BAM magic number as not-BAM (genuine defect F59, repaired).")
+    " (R7) detection window: no builder of the generic readers constructs its detection BufReader with a constant capacity below the default 8 KiB at which known finding F6 was triaged. (R8) dispatch agreement: every arm of a noodles-util wrapper's trait method forwards to the same-named method. (R9) the BGZF arm of detect_format treats a stream shorter than the BAM magic number as not-BAM (genuine defect F59, repaired). (R10) records() and read_record of the generic reader go through the same CRAM reader layer (F62, repaired).")
 ASSUMPTIONS = ["the inner enum variant names (Bam/BamRaw/SamGz/...) identify (format, compression) — checked against the constructor each arm calls"]
 NOT_DECIDED = ["record preservation across conversions at the SAM/VCF data-model level", "detection from a path extension vs content"]
 
@@ -185,6 +185,24 @@ def run(ctx):
             ctx.violation("C20.R9", "C20.R9/short-stream-fails-detection/" + f9.key,
                           "detect_format propagates the UnexpectedEof of its sniffing read_exact: a BGZF stream that inflates to fewer bytes than "
                           "the BAM magic number (the generic writer's empty SAM.gz) cannot be opened by the generic reader", f9.loc(rx9[0]))
+
+    ctx.rule("C20.R10", "one reader layer per format: the generic alignment reader's records() reads CRAM through the SAME buffered reader as "
+                        "read_record (cram::io::BufReader::read_record_buf); it does not reach under it with get_mut() — the buffered reader "
+                        "holds the rest of the container a record was taken from (genuine defect F62, repaired: those records were lost)")
+    f10 = ctx.anchor("C20.R10", "noodles_util::alignment::io::reader::inner::Inner::<R>::records")
+    if f10 is not None:
+        ctx.saw_fn(f10)
+        fam10 = list(fb.family(f10.key))
+        under = [(g, b) for g in fam10 for b, c in g.calls() if re.search(r"cram::io::buf_reader::BufReader::<R>::get_mut$", c.get("f") or "")]
+        through = [(g, b) for g in fam10 for b, c in g.calls() if re.search(r"cram::io::buf_reader::BufReader::<R>::read_record_buf$", c.get("f") or "")]
+        if under:
+            ctx.violation("C20.R10", "C20.R10/buffered-reader-bypassed/" + f10.key,
+                          "Inner::records reaches under the CRAM BufReader with get_mut(): the records the buffered reader still holds after a "
+                          "read_record are skipped", under[0][0].loc(under[0][1]))
+        elif through:
+            ctx.ok("C20.R10", f10.key, "the Cram arm reads through BufReader::read_record_buf", through[0][0].loc(through[0][1]))
+        else:
+            ctx.violation("C20.R10", "C20.R10/ANCHOR-MISSING/Inner::records/cram", "Inner::records: no CRAM read through the buffered reader found", f10.loc())
 
     ctx.rule("C20.R7", "detection window: the generic readers look at ONE fill_buf window (known finding F6, triaged at BufReader's default 8 KiB): "
                        "no builder constructs its detection reader with a smaller constant capacity")
